@@ -1,6 +1,7 @@
 import Dashu.Driver.Loop
 import Dashu.Model.Conv.Ieee
 import Dashu.Model.Conv.Prim
+import Dashu.Model.Conv.Ratio
 /-
   Driver of group `conv` (C06).  For every op it prints what the property REQUIRES (the spec);
   where a mirrored model exists it is evaluated beside the spec and a difference is reported as
@@ -150,8 +151,227 @@ def intFromFloatAsIsOp (d : DecConsts) (signed : Bool) (b : Nat) : String :=
     match ubigTryFromFloatAsIs d b with
     | .ok v => ok (natToHex v) | .error e => ok (errStr e)
 
+-- ------------------------------------------------------------------ rationals
+
+def gcdReduce (num : Int) (den : Nat) : Int × Nat :=
+  let g := Nat.gcd num.natAbs den
+  if g = 0 then (num, den) else (num / (g : Int), den / g)
+
+def ratStr (num : Int) (den : Nat) : String :=
+  let (n, d) := gcdReduce num den
+  intToHex n ++ " " ++ natToHex d
+
+def isPow2 (n : Nat) : Bool := n ≠ 0 && (2 ^ (Nat.log2 n) == n)
+
+/-- required result of `r.to_fNN`; the mirrored as-is model beside it is printed by `.asis` -/
+def ratToFloatOp (ty : String) (c : RatConsts) (enc : EncConsts) (num : Int) (den : Nat) (asis : Bool) : String :=
+  if asis then excStr ty (ratToFloatAsIs c (encodeFixed enc) num den)
+  else
+    let spec := ok (apxStr ty (ieeeRoundRat c.F .halfEven num den))
+    -- the proposed repair must coincide with the spec
+    let fixed := excStr ty (ratToFloatFixed c (encodeFixed enc) num den)
+    if fixed = spec then spec else spec ++ " !model-spec-mismatch model=" ++ fixed
+
+def ratFastOp (ty : String) (c : RatConsts) (enc : EncConsts) (num : Int) (den : Nat) : String :=
+  match ratToFloatFast c (encodeFixed enc) num den with
+  | .error k => panic k.name
+  | .ok b =>
+    let exact := (ieeeRoundRat c.F .halfEven num den).1
+    -- promised: "the mantissa can be off by one bit"
+    let d := if b ≥ exact then b - exact else exact - b
+    if d ≤ 1 then ok (fbits ty b) else ok (fbits ty b) ++ " !bound-violated correctly-rounded=" ++ fbits ty exact
+
+/-- `TryFrom<RBig> for fNN`: exact or refused -/
+def ratTryToFloatOp (ty : String) (F : Ieee) (num : Int) (den : Nat) : String :=
+  let (n, d) := gcdReduce num den
+  let r := ieeeRoundRat F .halfEven n d
+  if r.2 = .exact then ok (fbits ty r.1)
+  else if ¬ isPow2 d then ok (errStr .lossOfPrecision)
+  else if r.1 % F.signBit = F.infBits then ok (errStr .outOfBounds)
+  else ok (errStr .lossOfPrecision)
+
+def ratFromFloatOp (d : DecConsts) (b : Nat) : String :=
+  match decode d b with
+  | .error _ => ok (errStr .outOfBounds)
+  | .ok (man, exp) =>
+    let (n, dd) := floatAsRat 2 man exp
+    ok (ratStr n dd)
+
+def ratToIntOp (num : Int) (den : Nat) : String :=
+  let t := Int.tdiv num den
+  let fr := num - t * den
+  if fr = 0 then ok (intToHex t ++ " Exact")
+  else ok (intToHex t ++ " Inexact " ++ ratStr fr den)
+
+def ratToBigOp (num : Int) (den : Nat) (unsigned : Bool) : String :=
+  let (n, d) := gcdReduce num den
+  if unsigned ∧ n < 0 then ok (errStr .outOfBounds)
+  else if d = 1 then ok (intToHex n) else ok (errStr .lossOfPrecision)
+
+def ratToPrimOp (ty : String) (num : Int) (den : Nat) : Option String := do
+  let (lo, hi) ← primRange ty
+  let (n, d) := gcdReduce num den
+  if d ≠ 1 then pure (ok (errStr .lossOfPrecision))
+  else pure (ok (convStr ty (intoRangeSpec lo hi n)))
+
+-- ------------------------------------------------------------------ digits in base B
+
+def natPow (b : Nat) (e : Int) : Nat := b ^ e.toNat
+
+/-- number of base-`B` digits of `n > 0` -/
+partial def digitLen (B n : Nat) : Nat :=
+  if n = 0 ∨ B < 2 then 0 else
+  -- estimate from bit lengths, then correct
+  let est := (Nat.log2 n) / (Nat.log2 B + 1)
+  let rec up (d : Nat) : Nat := if B ^ d ≤ n then up (d + 1) else d
+  up est
+
+/-- SPEC of `RBig::to_float`: `num/den` rounded to `prec` base-`B` digits under `mode`;
+    returns normalized (signif, exp) and the adjustment flag -/
+def ratToFloatDigits (B : Nat) (mode : Mode) (num : Int) (den : Nat) (prec : Nat) : Int × Int × Adj :=
+  if num = 0 then (0, 0, .exact) else
+  let a := num.natAbs
+  -- e with B^(prec-1) ≤ a/den / B^e < B^prec
+  let e0 : Int := (digitLen B a : Int) - (digitLen B den : Int) - prec
+  -- a/den ∈ (B^(da-dd-1), B^(da-dd+1)) so the right e is e0 or e0+1 ... settle by test
+  let scaled (e : Int) : Nat × Nat := (a * natPow B (-e), den * natPow B e)
+  let ok (e : Int) : Bool :=
+    let (n, d) := scaled e
+    decide (B ^ (prec - 1) * d ≤ n) && decide (n < B ^ prec * d)
+  let e := if ok e0 then e0 else if ok (e0 + 1) then e0 + 1 else e0 - 1
+  let (n, d) := scaled e
+  let (s, adj) := roundIntMode mode (if num < 0 then -(n : Int) else n) d
+  let (s, e) := if s.natAbs = B ^ prec then (s / (B : Int), e + 1) else (s, e)
+  let (s', e') := normalizeRepr B s e
+  (s', e', adj)
+
+def ratToFloatOpDigits (B : Nat) (mode : Mode) (num : Int) (den : Nat) (prec : Nat) : String :=
+  let (s, e, adj) := ratToFloatDigits B mode num den prec
+  ok (intToHex s ++ " " ++ decStr e ++ " " ++ adj.name)
+
+-- ------------------------------------------------------------------ floats
+
+/-- dashu's `Rounding` label that is truthful for a result with error sign `fl` of a number with
+    the given sign: NoOp = toward zero, AddOne = above, SubOne = below -/
+def adjOfFlag (neg : Bool) : Flag → Adj
+  | .exact => .exact
+  | .pos => if neg then .noOp else .addOne
+  | .neg => if neg then .subOne else .noOp
+
+def floatToIeeeOp (ty : String) (F : Ieee) (B : Nat) (mode : Mode) (s : Int) (e : Int) : String :=
+  let (num, den) := floatAsRat B s e
+  let r := ieeeRoundRat F mode num den
+  ok (fbits ty r.1 ++ " " ++ (adjOfFlag (decide (s < 0)) r.2).name)
+
+def floatToIntOp (B : Nat) (mode : Mode) (s : Int) (e : Int) : String :=
+  let (num, den) := floatAsRat B s e
+  let (v, adj) := roundIntMode mode num den
+  ok (intToHex v ++ " " ++ adj.name)
+
+def floatTryBigOp (B : Nat) (s : Int) (e : Int) (unsigned : Bool) : String :=
+  let (num, den) := floatAsRat B s e
+  ratToBigOp num den unsigned |>.replace "err:OutOfBounds" (if unsigned ∧ num < 0 ∧ (gcdReduce num den).2 ≠ 1 then "err:LossOfPrecision" else "err:OutOfBounds")
+
+def floatTryPrimOp (ty : String) (B : Nat) (s : Int) (e : Int) : Option String := do
+  let (lo, hi) ← primRange ty
+  let (num, den) := floatAsRat B s e
+  let (n, d) := gcdReduce num den
+  if d = 1 then pure (ok (convStr ty (intoRangeSpec lo hi n)))
+  else
+    -- not an integer: refused; the kind follows the magnitude (clearly out of range ⇒ OutOfBounds)
+    let t := Int.tdiv n d
+    if t < lo ∨ t > hi then pure (ok (errStr .outOfBounds)) else pure (ok (errStr .lossOfPrecision))
+
+def floatFromIeeeOp (d : DecConsts) (b : Nat) : String :=
+  match decode d b with
+  | .error .nan => ok (errStr .outOfBounds)
+  | .error .infinite => ok (if b >>> d.signShr > 0 then "-inf" else "inf")
+  | .ok (man, exp) =>
+    let (s, e) := normalizeRepr 2 man exp
+    ok (intToHex s ++ " " ++ decStr e ++ " " ++ decStr (bitLen man.natAbs))
+
+def floatTryToIeeeOp (ty : String) (F : Ieee) (s : Int) (e : Int) : String :=
+  let r := ieeeRound F s e
+  if r.2 = .exact then ok (fbits ty r.1)
+  else if r.1 % F.signBit = F.infBits then ok (errStr .outOfBounds)
+  else ok (errStr .lossOfPrecision)
+
+def parseBase (s : String) : Option Nat := do
+  let b ← parseDecNat s
+  if b = 2 ∨ b = 10 ∨ b = 16 ∨ b = 3 then some b else none
+
 def dispatch : Dispatch := fun W op args =>
   match op, args with
+  | "r.to_f32", [a, b] => do let n ← parseInt a; let d ← parseNat b; if d = 0 then none else pure (ratToFloatOp "f32" rat32 f32Fixed n d false)
+  | "r.to_f64", [a, b] => do let n ← parseInt a; let d ← parseNat b; if d = 0 then none else pure (ratToFloatOp "f64" rat64 f64Fixed n d false)
+  | "r.to_f32.asis", [a, b] => do let n ← parseInt a; let d ← parseNat b; if d = 0 then none else pure (ratToFloatOp "f32" rat32 f32Fixed n d true)
+  | "r.to_f64.asis", [a, b] => do let n ← parseInt a; let d ← parseNat b; if d = 0 then none else pure (ratToFloatOp "f64" rat64 f64Fixed n d true)
+  | "r.to_f32_fast", [a, b] => do let n ← parseInt a; let d ← parseNat b; if d = 0 then none else pure (ratFastOp "f32" rat32 f32Fixed n d)
+  | "r.to_f64_fast", [a, b] => do let n ← parseInt a; let d ← parseNat b; if d = 0 then none else pure (ratFastOp "f64" rat64 f64Fixed n d)
+  | "r.tryto_f32", [a, b] => do let n ← parseInt a; let d ← parseNat b; if d = 0 then none else pure (ratTryToFloatOp "f32" .binary32 n d)
+  | "r.tryto_f64", [a, b] => do let n ← parseInt a; let d ← parseNat b; if d = 0 then none else pure (ratTryToFloatOp "f64" .binary64 n d)
+  | "r.from_f32", [a] => do let b ← parseFloatBits "f32" 32 a; pure (ratFromFloatOp f32Dec b)
+  | "r.from_f64", [a] => do let b ← parseFloatBits "f64" 64 a; pure (ratFromFloatOp f64Dec b)
+  | "r.to_int", [a, b] => do let n ← parseInt a; let d ← parseNat b; if d = 0 then none else pure (ratToIntOp n d)
+  | "r.to.ibig", [a, b] => do let n ← parseInt a; let d ← parseNat b; if d = 0 then none else pure (ratToBigOp n d false)
+  | "r.to.ubig", [a, b] => do let n ← parseInt a; let d ← parseNat b; if d = 0 then none else pure (ratToBigOp n d true)
+  | "r.to", [ty, a, b] => do let n ← parseInt a; let d ← parseNat b; if d = 0 then none else ratToPrimOp ty n d
+  | "r.from.ibig", [a] => do let n ← parseInt a; pure (ok (intToHex n ++ " 1"))
+  | "r.to_float", [bs, ms, a, b, pr] => do
+    let B ← parseBase bs; let mode ← Mode.parse ms
+    let n ← parseInt a; let d ← parseNat b; let prec ← parseDecNat pr
+    if d = 0 ∨ prec = 0 then none else pure (ratToFloatOpDigits B mode n d prec)
+  | "f.to_f32", [bs, ms, a, ex] => do
+    let B ← parseBase bs; let mode ← Mode.parse ms; let s ← parseInt a; let e ← parseDec ex
+    pure (floatToIeeeOp "f32" .binary32 B mode s e)
+  | "f.to_f64", [bs, _ms, a, ex] => do
+    let B ← parseBase bs; let s ← parseInt a; let e ← parseDec ex
+    pure (floatToIeeeOp "f64" .binary64 B .halfEven s e)
+  | "fr.to_f32", [bs, a, ex] => do
+    let B ← parseBase bs; let s ← parseInt a; let e ← parseDec ex
+    pure (floatToIeeeOp "f32" .binary32 B .halfEven s e)
+  | "f.to_int", [bs, ms, a, ex] => do
+    let B ← parseBase bs; let mode ← Mode.parse ms; let s ← parseInt a; let e ← parseDec ex
+    pure (floatToIntOp B mode s e)
+  | "fr.to_int", [bs, a, ex] => do
+    let B ← parseBase bs; let s ← parseInt a; let e ← parseDec ex
+    pure (floatToIntOp B .zero s e)
+  | "f.try.ibig", [bs, a, ex] => do
+    let B ← parseBase bs; let s ← parseInt a; let e ← parseDec ex
+    pure (floatTryBigOp B s e false)
+  | "f.try.ubig", [bs, a, ex] => do
+    let B ← parseBase bs; let s ← parseInt a; let e ← parseDec ex
+    pure (floatTryBigOp B s e true)
+  | "f.try", [ty, bs, a, ex] => do
+    let B ← parseBase bs; let s ← parseInt a; let e ← parseDec ex
+    floatTryPrimOp ty B s e
+  | "f.to.rbig", [bs, a, ex] => do
+    let B ← parseBase bs; let s ← parseInt a; let e ← parseDec ex
+    let (n, d) := floatAsRat B s e
+    pure (ok (ratStr n d))
+  | "f.from.ibig", [bs, a] => do
+    let B ← parseBase bs; let v ← parseInt a
+    let (s, e) := normalizeRepr B v 0
+    pure (ok (intToHex s ++ " " ++ decStr e ++ " " ++ intToHex v))
+  | "f.from_f32", [a] => do let b ← parseFloatBits "f32" 32 a; pure (floatFromIeeeOp f32Dec b)
+  | "f.from_f64", [a] => do let b ← parseFloatBits "f64" 64 a; pure (floatFromIeeeOp f64Dec b)
+  | "f.tryto_f32", [a, ex] => do let s ← parseInt a; let e ← parseDec ex; pure (floatTryToIeeeOp "f32" .binary32 s e)
+  | "f.tryto_f64", [a, ex] => do let s ← parseInt a; let e ← parseDec ex; pure (floatTryToIeeeOp "f64" .binary64 s e)
+  | "f.from.rbig", [bs, a, b] => do
+    let B ← parseBase bs; let n ← parseInt a; let d ← parseNat b
+    if d = 0 then none
+    -- a `From` conversion cannot refuse: it must be exact, i.e. the reduced denominator divides a power of B
+    let (rn, rd) := gcdReduce n d
+    let rec strip (fuel : Nat) (x : Nat) (k : Nat) : Nat × Nat :=
+      match fuel with
+      | 0 => (x, k)
+      | f + 1 => let g := Nat.gcd x B; if g ≤ 1 then (x, k) else strip f (x / g) (k + 1)
+    let (rest, k) := strip (Nat.log2 rd + 2) rd 0
+    if rest ≠ 1 then pure (ok "not-representable:must-be-refused")
+    else
+      let sc := B ^ k
+      let (s, e) := normalizeRepr B (rn * (sc / rd : Nat)) (-(k : Int))
+      pure (ok (intToHex s ++ " " ++ decStr e ++ " " ++ ratStr n d))
   | "u.to", [ty, a] => do let x ← parseNat a; toPrimOp W ty x true
   | "i.to", [ty, a] => do let x ← parseInt a; toPrimOp W ty x false
   | "u.from", [a] => fromPrimOp W "u" a
